@@ -811,6 +811,8 @@ func raceScenarios(prop, tier string) []*Scenario {
 			[][]Op{{{Kind: "R", Def: 1}, {Kind: "S", Pipeline: "p"}}}, false, ""},
 		{"reload-delay-vs-timer", "start_delay 10s -> 0 is reloaded while job 1's timer is pending and job 2 is accepted", []PipeCfg{del, one}, []XEvent{S}, 1,
 			[][]Op{{{Kind: "R", Def: 1}}, {{Kind: "S", Pipeline: "p"}}}, true, ""},
+		{"list-vs-schedule-and-completion/conc1", "job 1 runs, job 2 waits; a client lists jobs and pipelines while another schedules and job 1 completes", []PipeCfg{one}, []XEvent{S, S}, 2,
+			[][]Op{{{Kind: "List"}}, {{Kind: "S", Pipeline: "p"}}}, false, ""},
 		{"reload-adds-delay-vs-completion", "start_delay 0 -> 10s is reloaded while job 1 runs and job 2 waits", []PipeCfg{one, del}, []XEvent{S, S}, 2,
 			[][]Op{{{Kind: "R", Def: 1}}}, false, ""},
 	}
@@ -861,6 +863,29 @@ func c05Scenarios(tier string) []*Scenario {
 		}
 		vs = append(vs, monC01(f)...)
 		// the number of accepted requests is bounded by slots + queue slots
+		// the decision table at every request: a request decides inside one critical section, so the state it decided on
+		// is the one reported at the last release of the runner lock before its own
+		for i, e := range f.Log {
+			if e.Kind != EvApiRet || !strings.HasPrefix(e.Detail, "S(") {
+				continue
+			}
+			own := -1
+			for k := i - 1; k >= 0; k-- {
+				if f.Log[k].Kind == EvUnlock && f.Log[k].Thread == e.Thread {
+					own = k
+					break
+				}
+				if f.Log[k].Kind == EvApiCall && f.Log[k].Thread == e.Thread {
+					break
+				}
+			}
+			if own < 0 {
+				continue
+			}
+			if pre, post := f.dumpBefore(own), f.Log[own].Dump; pre != nil && post != nil {
+				vs = append(vs, monC05(f, pre, post, XEvent{Kind: "S", P: "p"}, []Event{e})...)
+			}
+		}
 		return dedupV(vs)
 	}
 	var scs []*Scenario
@@ -883,6 +908,19 @@ func c05Scenarios(tier string) []*Scenario {
 			}
 			scs = append(scs, sc)
 		}
+	}
+	// a cancel of a delayed waiting job that races the expiry of its start timer (the callback may already be waiting
+	// for the runner lock), then a new request: the canceled job holds no queue slot
+	for _, ql := range []int{1, 2} {
+		ql := ql
+		dcfg := PipeCfg{Conc: 1, QL: ql, Graph: graphOne, Delay: dly}
+		pre := []XEvent{{Kind: "S", P: "p"}, {Kind: "Adv", D: dly}, {Kind: "S", P: "p"}}
+		scs = append(scs, &Scenario{Name: fmt.Sprintf("cancel-vs-timer-expiry-then-schedule/ql=%d", ql), Desc: "job 1 runs, job 2 waits with its delay about to expire; a client cancels job 2 and schedules again while the timer fires",
+			Opts: func() WorldOpts { return WorldOpts{Defs: defsOf(dcfg)} }, Prefix: pre,
+			Setup: func(w *World) {
+				w.Accepted = 2
+				w.SpawnDriver(Op{Kind: "C", Job: 2}, Op{Kind: "S", Pipeline: "p"}, Op{Kind: "S", Pipeline: "p"})
+			}, Check: chk})
 	}
 	rep := PipeCfg{Conc: 1, QL: 1, Replace: true, Graph: graphOne}
 	scs = append(scs, &Scenario{Name: "concurrent-schedules/replace", Desc: "two clients schedule a replace pipeline while one job runs and one waits",
